@@ -1375,3 +1375,71 @@ func ruleHorzOpenEnd(rule string) func(*Ctx) {
 			"an open path's last segment ends at its end point: without the range test the sweep runs on to the next closed edge and the open solution extends past the subject line")
 	}
 }
+
+// ruleSplitRelabel: C02.split — when a horizontal join splits one ring in two, the points of the new ring are
+// relabelled (fixOutRecPts(new)) BEFORE the old ring's entry point is tested for having moved to the new ring
+// (`or1.pts.outrec == or2`), and that test repairs or1.pts.
+func ruleSplitRelabel(rule string) func(*Ctx) {
+	return func(c *Ctx) {
+		f := c.fn("(clipperBase).processHorzJoins")
+		var newRec *ssa.Call
+		for _, ci := range callsTo(c, f, "(clipperBase).newOutRec") {
+			newRec = ci.(*ssa.Call)
+		}
+		if newRec == nil {
+			fatalf("processHorzJoins no longer creates a record for the split-off ring")
+		}
+		var test *ssa.BinOp
+		for _, b := range f.Blocks {
+			for _, in := range b.Instrs {
+				bo, ok := in.(*ssa.BinOp)
+				if !ok || bo.Op != token.EQL {
+					continue
+				}
+				if (bo.Y == ssa.Value(newRec) && isFieldLoadOf(bo.X, "OutPt", "outrec")) || (bo.X == ssa.Value(newRec) && isFieldLoadOf(bo.Y, "OutPt", "outrec")) {
+					test = bo
+				}
+			}
+		}
+		bad := ""
+		switch {
+		case test == nil:
+			bad = "the test `or1.pts.outrec == or2` is gone: when the old ring's entry point ends up on the split-off ring, both records describe the same ring (one half is emitted twice, the other is lost)"
+		default:
+			ok := false
+			for _, ci := range callsTo(c, f, "fixOutRecPts") {
+				if ci.Common().Args[0] == ssa.Value(newRec) && precedes(ci, test) {
+					ok = true
+				}
+			}
+			if !ok {
+				bad = "fixOutRecPts(new ring) does not precede the test `or1.pts.outrec == or2`: the points still carry the old label, so the test can never be true"
+			} else {
+				// the then-branch re-anchors or1.pts
+				fixed := false
+				for _, b := range f.Blocks {
+					for _, in := range b.Instrs {
+						st, ok := in.(*ssa.Store)
+						if !ok {
+							continue
+						}
+						if fa, ok := st.Addr.(*ssa.FieldAddr); ok && typeName(fa.X.Type()) == "*OutRec" && fieldName(fa.X.Type(), fa.Field) == "pts" &&
+							guardedBy(st, true, func(v ssa.Value) bool { return v == ssa.Value(test) }) {
+							fixed = true
+						}
+					}
+				}
+				if !fixed {
+					bad = "the old ring's entry point is not re-anchored when it moved to the new ring"
+				}
+			}
+		}
+		pos := f.Pos()
+		if test != nil {
+			pos = test.Pos()
+		}
+		c.check(bad == "", rule, rule+":processHorzJoins:relabel-then-test", pos, "(clipperBase).processHorzJoins",
+			"split-off ring is relabelled, then `or1.pts.outrec == or2` is tested and or1.pts re-anchored", bad,
+			"after a self-join both records must own disjoint rings; otherwise one polygon is returned twice (winding 2) and the other piece vanishes")
+	}
+}
